@@ -1015,6 +1015,25 @@ func ext۰json۰Marshal(fr *frame, args []value) value {
 	return ext۰proto۰Marshal(fr, args)
 }
 
+// encoding/json.Unmarshal: the blob token, surrounded by optional JSON white space.
+func ext۰json۰Unmarshal(fr *frame, args []value) value {
+	b := args[0].([]value)
+	isWS := func(v value) bool {
+		c, ok := v.(uint8)
+		return ok && (c == ' ' || c == '\n' || c == '\t' || c == '\r')
+	}
+	for len(b) > 0 && isWS(b[len(b)-1]) {
+		b = b[:len(b)-1]
+	}
+	for len(b) > 0 && isWS(b[0]) {
+		b = b[1:]
+	}
+	if len(b) == 0 {
+		return fr.errorValue("unexpected end of JSON input")
+	}
+	return ext۰proto۰Unmarshal(fr, []value{b, args[1]})
+}
+
 func jsonUnsupported(fr *frame, v value, seen map[*value]bool) bool {
 	switch x := v.(type) {
 	case float64:
@@ -1160,7 +1179,7 @@ func init() {
 	externals["google.golang.org/protobuf/proto.Unmarshal"] = ext۰proto۰Unmarshal
 	// encoding/json of whole messages: identity token (what JSON loses is outside the claims that use it)
 	externals["encoding/json.Marshal"] = ext۰json۰Marshal
-	externals["encoding/json.Unmarshal"] = ext۰proto۰Unmarshal
+	externals["encoding/json.Unmarshal"] = ext۰json۰Unmarshal
 	// randomness and unique ids: environment stubs
 	externals["math/rand.Seed"] = extNoop
 	externals["math/rand.NewSource"] = extNoop
